@@ -60,6 +60,22 @@ def main():
             mm = re.match(r"rule=(\S+) instance=(.*?) at ", c["violations"][0])
             r = "%s `%s`" % (mm.group(1), mm.group(2)[:80]) if mm else c["violations"][0][:100]
         out.append("| %s | %s | %s | %s |" % (sid, first.replace("|", "/"), v, r.replace("|", "/")))
+    out.append("\n### 10.E Rules as built, per property (name, statement, instances on the current tree; from the evidence of the last committed run)\n")
+    for c in man["checks"]:
+        try:
+            e = json.load(open(os.path.join(HERE, c["evidence_file"])))
+        except Exception:
+            continue
+        cov = e["coverage"]
+        out.append("#### %s (%s tier run: %d obligations, %.1f s)\n" % (c["property_id"], e["tier"], cov.get("obligations", 0), e["wall_s"]))
+        out.append("| rule | decides | instances (min) |")
+        out.append("|---|---|---|")
+        for r, d in cov.get("rules", {}).items():
+            out.append("| %s | %s | %s (%s) |" % (r, d.get("doc", "").replace("|", "/").replace("\n", " ")[:600], d.get("instances"), d.get("min_instances")))
+        asm = e.get("assumptions") or []
+        if asm:
+            out.append("\nAssumptions stated by the check: " + " · ".join(a.replace("|", "/")[:300] for a in asm[:12]) + "\n")
+        out.append("Self-test: `selftest/%s/README.md` (mutants that must fire, benign variants that must stay silent).\n" % c["property_id"].lower())
     block = "\n".join(out) + "\n"
     p = os.path.join(HERE, "DESIGN.md")
     s = open(p).read()
